@@ -1170,6 +1170,117 @@ async fn round_mutual(seed: u64, hb: &Heartbeat, tot: &Mutex<Tot>, prop: &str) {
 }
 
 // ---------------------------------------------------------------------------------------------
+// runtimes without a time driver: messaging and lifecycle never need timers (only the *_with_timeout calls do)
+// ---------------------------------------------------------------------------------------------
+fn round_notime(seed: u64, tot: &Mutex<Tot>, prop: &str) {
+    let (tx, rx) = std::sync::mpsc::channel();
+    let seed2 = seed;
+    std::thread::spawn(move || {
+        let mut r = Rng::new(seed2);
+        let rt = if r.chance(50) {
+            tokio::runtime::Builder::new_current_thread().build().unwrap()
+        } else {
+            tokio::runtime::Builder::new_multi_thread().worker_threads(2).build().unwrap()
+        };
+        let sh = Shared::new(2, 1, false, false, seed2);
+        let out = rt.block_on(async {
+            let mut refs = vec![];
+            let mut ws = vec![];
+            for i in 0..2usize {
+                let spec = ActorSpec {
+                    cap: Some(1 + r.below(3) as usize),
+                    start: HookScript::default(),
+                    run: vec![],
+                    stop: HookScript { delay: 0, steps: vec![], out: if r.chance(10) { Out::Err } else { Out::Ok } },
+                    run_err_when_handled: None,
+                    in_peers: i == 1,
+                };
+                let (rf, jh) = spawn_sa(&sh, i, &spec);
+                sh.model_add(i, 1, "spawner");
+                if i == 1 {
+                    sh.peers.lock().unwrap()[1] = Some(H::D(rf.clone()));
+                    sh.model_add(1, 1, "peers");
+                }
+                ws.push(tokio::spawn(watch(sh.clone(), i, jh)));
+                refs.push(rf);
+            }
+            let mut cl = vec![];
+            for c in 0..3usize {
+                let target = r.below(2) as usize;
+                let h = H::D(refs[target].clone());
+                sh.model_add(target, 1, "slot-init");
+                let sh2 = sh.clone();
+                let mut cr = Rng::new(r.next());
+                cl.push(tokio::spawn(async move {
+                    for _ in 0..4 {
+                        let mut steps = vec![];
+                        if cr.chance(40) {
+                            steps.push(Step::Yield);
+                        }
+                        if target == 0 && cr.chance(40) {
+                            steps.push(Step::Peer { target: 1, kind: if cr.chance(50) { SendKind::Ask } else { SendKind::Tell }, mty: MTy::U, body: Body::plain(uid()) });
+                        }
+                        if cr.chance(3) {
+                            steps.push(Step::Panic);
+                        }
+                        let (kind, mty) = match cr.below(6) {
+                            0 | 1 => (SendKind::Tell, MTy::U),
+                            2 => (SendKind::Tell, MTy::R),
+                            3 => (SendKind::Ask, MTy::S),
+                            4 => (SendKind::Ask, MTy::N),
+                            _ => (SendKind::Ask, MTy::U),
+                        };
+                        send_via(&sh2, Ctx::Client(c), target, &h, kind, mty, Body { uid: uid(), flags: 0, steps }).await;
+                        tokio::task::yield_now().await;
+                    }
+                    drop(h);
+                    sh2.model_add(target, -1, "drop");
+                }));
+            }
+            for c in cl {
+                let _ = c.await;
+            }
+            for (i, rf) in refs.iter().enumerate() {
+                let h = H::D(rf.clone());
+                if r.chance(50) {
+                    stop_via(&sh, Ctx::Main, i, &h).await;
+                } else {
+                    kill_via(&sh, Ctx::Main, i, &h);
+                }
+            }
+            sh.peers.lock().unwrap()[1] = None;
+            sh.model_add(1, -1, "peers-drop");
+            for (i, rf) in refs.drain(..).enumerate() {
+                drop(rf);
+                sh.model_add(i, -1, "drop");
+            }
+            for w in ws {
+                let _ = w.await;
+            }
+            let ids = sh.ids.lock().unwrap().clone();
+            RoundOut { log: sh.log.snapshot(), ids, caps: vec![3, 3], hung_clients: 0, hung_actors: 0, stalled: false }
+        });
+        let _ = tx.send(out);
+    });
+    match rx.recv_timeout(Duration::from_secs(20)) {
+        Ok(mut out) => {
+            // capacities are only used by the occupancy bound; use the upper bound of what was drawn
+            out.caps = vec![3, 3];
+            for id in out.ids.iter() {
+                reg_remove(*id);
+            }
+            let tainted = AtomicBool::new(false);
+            absorb(tot, prop, "notime", seed, &out, &tainted);
+        }
+        Err(_) => {
+            let mut t = tot.lock().unwrap();
+            t.rounds += 1;
+            t.viol.push(("C03.complete".into(), "[no-time-driver] a small workload of tells/asks/stop/kill on a runtime built without a time driver did not finish within 20 s".into(), seed, "notime".into()));
+        }
+    }
+}
+
+// ---------------------------------------------------------------------------------------------
 // spawn storm (C11 id uniqueness under parallel spawns from several threads and runtimes)
 // ---------------------------------------------------------------------------------------------
 mod storm {
@@ -1662,6 +1773,16 @@ pub fn cmd_mt(a: &Args) -> i32 {
                     }
                 });
                 rt.shutdown_timeout(Duration::from_secs(2));
+            }
+            "notime" => {
+                let mut n = 0u64;
+                while tp.elapsed() < per_profile {
+                    n += 1;
+                    round_notime(mix(base, ((pi as u64) << 56) ^ n), &tot, &prop);
+                    if tot.lock().unwrap().viol.len() > 5 {
+                        break;
+                    }
+                }
             }
             "starve" => {
                 let mut n = 0u64;
